@@ -125,15 +125,36 @@ def run(rep, prog, tier):
             lhs, rhs = strip(n["c"][0]), strip(n["c"][1])
             if lhs.get("k") == "MemberExpr" and lhs["ref"].get("qn") == "cell::target_volume_":
                 ok = False
+                from ..model import expand as _exp
+                rhs = strip(_exp(fn, n["c"][1]))
+                while rhs.get("k") == "ParenExpr" and rhs.get("c"):
+                    rhs = strip(rhs["c"][0])
                 if rhs.get("k") == "BinaryOperator" and rhs.get("op") == "/":
                     num, den = strip(rhs["c"][0]), strip(rhs["c"][1])
                     if num.get("k") == "MemberExpr" and num["ref"].get("qn") == "cell::target_volume_":
                         h = e1.peel_handle(num["c"][0])
                         if h.get("k") == "DeclRefExpr" and h["ref"]["did"] == fn["params"][0]["did"] and den.get("k") in ("IntegerLiteral", "FloatingLiteral") and float(den["v"]) == 2.0:
                             ok = True
-                n_half += 1
+                # how many daughters this assignment reaches: one, or - inside a range-for over a local array / vector built from
+                # both daughters - every element of that container
+                fi_ = prog.index(fn)
+                loop = fi_.enclosing(n, ("CXXForRangeStmt",))
+                reach = 1
+                recv = e1.peel_handle(lhs["c"][0]) if lhs.get("c") else {}
+                if loop is not None and recv.get("k") == "DeclRefExpr" and recv["ref"].get("did") == loop["var"].get("did"):
+                    rng = strip(loop["range"])
+                    if rng.get("k") == "DeclRefExpr":
+                        for v_ in walk(fn["body"]):
+                            if v_.get("k") == "Var" and v_.get("did") == rng["ref"]["did"] and isinstance(v_.get("init"), dict):
+                                il = [x for x in walk(v_["init"]) if x.get("k") == "InitListExpr"]
+                                if il:
+                                    inner = il[-1]
+                                    reach = len([c_ for c_ in inner.get("c", []) if isinstance(c_, dict)])
+                n_half += reach
                 if ok:
                     rep.ok("C09.half-target-volume", prog, fn, n, "%s" % short(n, 80))
+                    for extra_ in range(reach - 1):
+                        rep.ok("C09.half-target-volume", prog, fn, n, "%s (element %d of the daughters' container)" % (short(n, 70), extra_ + 2))
                 else:
                     rep.violation("C09.half-target-volume", prog, fn, n, "daughter target volume is not mother/2", "%s: each daughter must inherit half of the mother's target volume" % short(n, 90))
     if n_half != 2:
